@@ -5,6 +5,7 @@ regenerated from flatten.go on every run; tied to the code by the `flatten` corr
 -/
 import APModel.Model.Flatten
 import APModel.Props.C10
+import APModel.Props.C14
 import APModel.Theory.Fields
 
 namespace APModel.Flatten
@@ -48,21 +49,43 @@ theorem C16_idem_item (i : Item) : flattenToIRI (flattenToIRI i) = flattenToIRI 
 
 /-! ### lists (to, bto, cc, bcc, audience and list-valued attributedTo/replies/likes/shares) -/
 
-/-- With IRI equality an equivalence (C14), the flattened list is: the first mentions that survive
-de-duplication, each flattened — nothing else happens and there is no panic. -/
-theorem C16_list (h : IsEquiv iriEqv) (l : List Item) :
-    flattenList l = some ((specCol iriEqv dedupKey l []).2.map flattenToIRI) := by
-  have := (dedupCol_refines iriEqv dedupKey h l [] List.Pairwise.nil).1
-  simp [flattenList, this]
+/-- IRI equality is an equivalence on C14's domain (accepted absolute URLs with lower-case queries) -/
+theorem iriEqv_equiv_on : IsEquivOn iriEqv IRI.inDomain := by
+  obtain ⟨hr, hs, ht⟩ := IRI.C14_equiv_on false
+  exact ⟨fun a _ => hr a, fun a b _ _ => hs a b, ht⟩
+
+/-- every id the de-duplication looks at lies in `D` -/
+def keysIn (D : Str → Bool) (l : List Item) : Prop := ∀ e ∈ l, ∀ t, dedupKey e = some t → D t = true
+
+def keysInB (D : Str → Bool) (l : List Item) : Bool :=
+  l.all (fun e => match dedupKey e with
+    | some t => D t
+    | none => true)
+
+theorem keysIn_of_B (D : Str → Bool) (l : List Item) (h : keysInB D l = true) : keysIn D l := by
+  intro e he t ht
+  have := List.all_eq_true.mp h e he
+  simpa [ht] using this
+
+/-- the relation the theorems are stated with: IRI equality on the domain (identity outside it; on lists
+whose ids are in the domain the code cannot tell the difference, `dedupCol_refines_on`) -/
+abbrev eqvOn (D : Str → Bool) : Str → Str → Bool := onDomain iriEqv D
+
+/-- With IRI equality an equivalence on `D` (C14) and the ids of the list in `D`, the flattened list is:
+the first mentions that survive de-duplication, each flattened — nothing else happens and there is no
+panic. -/
+theorem C16_list (D : Str → Bool) (h : IsEquivOn iriEqv D) (l : List Item) (hl : keysIn D l) :
+    flattenList l = some ((specCol (eqvOn D) dedupKey l []).2.map flattenToIRI) := by
+  simp [flattenList, dedupCol_refines_on iriEqv D h dedupKey l hl]
 
 /-- every entry of a flattened list is an original entry or the IRI made of an original entry's id. -/
-theorem C16_list_no_new_iri (h : IsEquiv iriEqv) (l r : List Item) (hr : flattenList l = some r) :
-    ∀ x ∈ r, ∃ y ∈ l, x = y ∨ x = .iri (linkOf y) := by
-  rw [C16_list h l] at hr
+theorem C16_list_no_new_iri (D : Str → Bool) (h : IsEquivOn iriEqv D) (l r : List Item) (hl : keysIn D l)
+    (hr : flattenList l = some r) : ∀ x ∈ r, ∃ y ∈ l, x = y ∨ x = .iri (linkOf y) := by
+  rw [C16_list D h l hl] at hr
   cases hr
   intro x hx
   obtain ⟨y, hy, rfl⟩ := List.mem_map.mp hx
-  exact ⟨y, (specCol_sublist iriEqv dedupKey l []).1.subset hy, C16_no_new_iri y⟩
+  exact ⟨y, (specCol_sublist (eqvOn D) dedupKey l []).1.subset hy, C16_no_new_iri y⟩
 
 /-- the de-duplication key of an entry is not changed by flattening it. -/
 theorem dedupKey_flatten (i : Item) : dedupKey (flattenToIRI i) = dedupKey i := by
@@ -99,24 +122,44 @@ theorem specCol_fixed (eqv : Str → Str → Bool) (h : IsEquiv eqv) (key : Item
       have : Inequiv eqv ((rec ++ [t]) ++ r.filterMap key) := by simpa using hi
       simp [ih (rec ++ [t]) this]
 
+theorem keysIn_flattened (D : Str → Bool) (l : List Item) (hl : keysIn D l) :
+    keysIn D ((specCol (eqvOn D) dedupKey l []).2.map flattenToIRI) := by
+  intro e he t ht
+  obtain ⟨y, hy, rfl⟩ := List.mem_map.mp he
+  rw [dedupKey_flatten] at ht
+  exact hl y ((specCol_sublist (eqvOn D) dedupKey l []).1.subset hy) t ht
+
 /-- Flattening a list twice equals flattening it once. -/
-theorem C16_idem_list (h : IsEquiv iriEqv) (l r : List Item) (hr : flattenList l = some r) :
-    flattenList r = some r := by
-  rw [C16_list h l] at hr
+theorem C16_idem_list (D : Str → Bool) (h : IsEquivOn iriEqv D) (l r : List Item) (hl : keysIn D l)
+    (hr : flattenList l = some r) : flattenList r = some r := by
+  rw [C16_list D h l hl] at hr
   cases hr
-  rw [C16_list h]
-  have hkeys : ((specCol iriEqv dedupKey l []).2.map flattenToIRI).filterMap dedupKey =
-      (specCol iriEqv dedupKey l []).2.filterMap dedupKey := by
+  rw [C16_list D h _ (keysIn_flattened D l hl)]
+  have hE := onDomain_equiv iriEqv D h
+  have hkeys : ((specCol (eqvOn D) dedupKey l []).2.map flattenToIRI).filterMap dedupKey =
+      (specCol (eqvOn D) dedupKey l []).2.filterMap dedupKey := by
     rw [List.filterMap_map]
     congr 1
     funext i
     simp [dedupKey_flatten]
-  have hin : Inequiv iriEqv ([] ++ ((specCol iriEqv dedupKey l []).2.map flattenToIRI).filterMap dedupKey) := by
+  have hin : Inequiv (eqvOn D) ([] ++ ((specCol (eqvOn D) dedupKey l []).2.map flattenToIRI).filterMap dedupKey) := by
     rw [List.nil_append, hkeys]
-    have := C10_lists_dedup iriEqv dedupKey h [l]
+    have := C10_lists_dedup (eqvOn D) dedupKey hE [l]
     simpa [specCols] using this
-  rw [specCol_fixed iriEqv h dedupKey _ [] hin]
+  rw [specCol_fixed (eqvOn D) hE dedupKey _ [] hin]
   simp [List.map_map, Function.comp_def, C16_idem_item]
+
+/-- … for the code's own IRI equality, with no assumption left: on lists whose ids are accepted absolute
+URLs with lower-case queries, flattening never panics, keeps exactly the first mentions (flattened), and
+doing it twice equals doing it once -/
+theorem C16_list_concrete (l : List Item) (hl : keysInB IRI.inDomain l = true) :
+    ∃ r, flattenList l = some r ∧ flattenList r = some r ∧
+      r = (specCol (eqvOn IRI.inDomain) dedupKey l []).2.map flattenToIRI ∧
+      ∀ x ∈ r, ∃ y ∈ l, x = y ∨ x = .iri (linkOf y) := by
+  have hk := keysIn_of_B IRI.inDomain l hl
+  have e := C16_list IRI.inDomain iriEqv_equiv_on l hk
+  exact ⟨_, e, C16_idem_list IRI.inDomain iriEqv_equiv_on l _ hk e, rfl,
+    C16_list_no_new_iri IRI.inDomain iriEqv_equiv_on l _ hk e⟩
 
 /-! ### every other property is unchanged -/
 
@@ -185,6 +228,9 @@ hold a list and normalises it) and the fold over the rows of the regenerated tab
 The statement is about the model's verdicts: a second application never panics, and whenever it has an
 answer inside the modelled domain that answer holds, property by property, what the first result held.
 (`outside` stays possible: a collection object in a flattened position is outside the model both times.)
+Nothing is assumed about IRI equality: C14 proves it an equivalence on its domain (`iriEqv_equiv_on`), and
+the side condition `domVal IRI.inDomain` says the ids in the lists being de-duplicated lie in that
+domain (accepted absolute URLs with lower-case queries).
 The explicit side condition `plainVal` concerns lists sitting in single-item positions: their members
 are items (not lists, not typed nils) that do not flatten to a nil IRI (an id that is "-"), and an
 embedded object there does not either; everything else is unrestricted. -/
@@ -200,6 +246,13 @@ def plainVal : FVal → Bool
   | .item (.coll _ l) => l.toList.all simpleMember
   | .item (.iris l) => l.all (fun s => simpleMember (.iri s))
   | .item (.node k p fs) => simpleMember (.node k p fs)
+  | _ => true
+
+/-- the ids the de-duplication of a value's lists looks at are in the domain of IRI equality -/
+def domVal (D : Str → Bool) : FVal → Bool
+  | .item (.coll _ l) => keysInB D l.toList
+  | .item (.iris l) => keysInB D (l.map Item.iri)
+  | .items l => keysInB D l.toList
   | _ => true
 
 theorem toList_ofList (l : List Item) : (Items.ofList l).toList = l := by
@@ -244,22 +297,24 @@ theorem flatten_simple_fix (y : Item) (hs : simpleMember y = true) (hn : flatten
     | node k p fs => simpa [simpleMember, h] using hs
     | _ => simp [simpleMember] at hs
 
-theorem flattenList_simple (h : IsEquiv iriEqv) (l l' : List Item) (hl : flattenList l = some l')
+theorem flattenList_simple (D : Str → Bool) (h : IsEquivOn iriEqv D) (l l' : List Item) (hk : keysIn D l)
+    (hl : flattenList l = some l')
     (hs : l.all simpleMember = true) : ∀ x ∈ l', ∃ y ∈ l, simpleMember y = true ∧ x = flattenToIRI y := by
-  rw [C16_list h l] at hl
+  rw [C16_list D h l hk] at hl
   cases hl
   intro x hx
   obtain ⟨y, hy, rfl⟩ := List.mem_map.mp hx
-  have hyl := (specCol_sublist iriEqv dedupKey l []).1.subset hy
+  have hyl := (specCol_sublist (eqvOn D) dedupKey l []).1.subset hy
   exact ⟨y, hyl, List.all_eq_true.mp hs y hyl, rfl⟩
 
-theorem flatten_normalize_fix (h : IsEquiv iriEqv) (l l' : List Item) (hl : flattenList l = some l')
+theorem flatten_normalize_fix (D : Str → Bool) (h : IsEquivOn iriEqv D) (l l' : List Item) (hk : keysIn D l)
+    (hl : flattenList l = some l')
     (hs : l.all simpleMember = true) (hn : normalize l' ≠ .nil) :
     flatten (normalize l') = .ok (normalize l') ∨ flatten (normalize l') = .outside := by
   match l', hl, hn with
   | [], _, hn => simp [normalize] at hn
   | [x], hl, hn =>
-    obtain ⟨y, _, hy, rfl⟩ := flattenList_simple h l _ hl hs x (by simp)
+    obtain ⟨y, _, hy, rfl⟩ := flattenList_simple D h l _ hk hl hs x (by simp)
     exact flatten_simple_fix y hy (by simpa [normalize] using hn)
   | a :: b :: r, hl, _ =>
     simp only [normalize]
@@ -267,11 +322,12 @@ theorem flatten_normalize_fix (h : IsEquiv iriEqv) (l l' : List Item) (hl : flat
     simp only [Item.isNilLike, Bool.false_eq_true, if_false, toList_ofList]
     split
     · exact Or.inr rfl
-    · rw [C16_idem_list h l _ hl]
+    · rw [C16_idem_list D h l _ hk hl]
       exact Or.inl rfl
 
 /-- `Flatten` on its own result -/
-theorem flatten_fix (h : IsEquiv iriEqv) (i j : Item) (hp : plainVal (.item i) = true)
+theorem flatten_fix (D : Str → Bool) (h : IsEquivOn iriEqv D) (i j : Item) (hp : plainVal (.item i) = true)
+    (hd : domVal D (.item i) = true)
     (hj : flatten i = .ok j) (hjn : j ≠ .nil) : flatten j = .ok j ∨ flatten j = .outside := by
   cases i with
   | nil => simp [flatten, Item.isNilLike] at hj; exact absurd hj.symm hjn
@@ -292,7 +348,7 @@ theorem flatten_fix (h : IsEquiv iriEqv) (i j : Item) (hp : plainVal (.item i) =
     | some l' =>
       simp only [hl] at hj
       cases hj
-      exact flatten_normalize_fix h _ _ hl (by simpa [plainVal, List.all_map, Function.comp_def] using hp) hjn
+      exact flatten_normalize_fix D h _ _ (keysIn_of_B D _ (by simpa [domVal] using hd)) hl (by simpa [plainVal, List.all_map, Function.comp_def] using hp) hjn
   | coll p l =>
     simp only [flatten, Item.isNilLike, Bool.false_eq_true, if_false] at hj
     split at hj
@@ -302,7 +358,7 @@ theorem flatten_fix (h : IsEquiv iriEqv) (i j : Item) (hp : plainVal (.item i) =
       | some l' =>
         simp only [hl] at hj
         cases hj
-        exact flatten_normalize_fix h _ _ hl (by simpa [plainVal] using hp) hjn
+        exact flatten_normalize_fix D h _ _ (keysIn_of_B D _ (by simpa [domVal] using hd)) hl (by simpa [plainVal] using hp) hjn
   | node k p fs =>
     simp only [flatten, Item.isNilLike, Bool.false_eq_true, if_false] at hj
     split at hj
@@ -325,7 +381,8 @@ theorem fval_Flatten_outside (i : Item) (hf : flatten i = .outside) :
   simp only [hf]
 
 /-- a value a row has produced is a fixpoint of that row's function (or outside the model) -/
-theorem val_fix (h : IsEquiv iriEqv) (fn : String) (v v' : FVal) (hp : plainVal v = true)
+theorem val_fix (D : Str → Bool) (h : IsEquivOn iriEqv D) (fn : String) (v v' : FVal) (hp : plainVal v = true)
+    (hd : domVal D v = true)
     (hv : flattenFVal fn v = .ok v') (hnn : v' ≠ .item .nil) : ValFix fn v' := by
   unfold ValFix
   unfold flattenFVal at hv
@@ -344,7 +401,7 @@ theorem val_fix (h : IsEquiv iriEqv) (fn : String) (v v' : FVal) (hp : plainVal 
           simp only [hf] at hv
           cases j <;> simp_all
         subst hv'
-        rcases flatten_fix h i j hp hf hjn with e | e
+        rcases flatten_fix D h i j hp hd hf hjn with e | e
         · exact Or.inl (fval_Flatten_ok j j e hjn)
         · exact Or.inr (fval_Flatten_outside j e)
     | panic => simp [hf] at hv
@@ -362,7 +419,7 @@ theorem val_fix (h : IsEquiv iriEqv) (fn : String) (v v' : FVal) (hp : plainVal 
         simp only [toList_ofList]
         split
         · exact Or.inr rfl
-        · rw [C16_idem_list h _ _ hl]
+        · rw [C16_idem_list D h _ _ (keysIn_of_B D _ (by simpa [domVal] using hd)) hl]
           exact Or.inl rfl
   · cases hv
 
@@ -376,8 +433,8 @@ theorem rowFix_congr (fs fs' : Fields) (row : String × String) (he : fs'.get? r
   rw [he]; exact hr
 
 /-- applying a row establishes its fixpoint state -/
-theorem applyRow_establishes (h : IsEquiv iriEqv) (fs fs' : Fields) (row : String × String)
-    (hp : ∀ v, fs.get? row.1 = some v → plainVal v = true)
+theorem applyRow_establishes (D : Str → Bool) (h : IsEquivOn iriEqv D) (fs fs' : Fields) (row : String × String)
+    (hp : ∀ v, fs.get? row.1 = some v → plainVal v = true ∧ domVal D v = true)
     (ha : applyRow fs row = .ok fs') : RowFix fs' row := by
   unfold applyRow at ha
   cases hg : fs.get? row.1 with
@@ -398,7 +455,7 @@ theorem applyRow_establishes (h : IsEquiv iriEqv) (fs fs' : Fields) (row : Strin
           simp only [hv] at ha
           cases ha; rfl
         subst this
-        exact Or.inr ⟨v', get_set_same _ _ _, hnn, val_fix h row.2 v v' (hp v hg) hv hnn⟩
+        exact Or.inr ⟨v', get_set_same _ _ _, hnn, val_fix D h row.2 v v' (hp v hg).1 (hp v hg).2 hv hnn⟩
     | panic => simp [hv] at ha
     | outside => simp [hv] at ha
 
@@ -419,11 +476,11 @@ theorem applyRow_fixed (fs : Fields) (row : String × String) (hr : RowFix fs ro
 
 /-- after the rows have run, every row's position is in its fixpoint state.  A position may be visited
 more than once as long as it is by the same function (the code flattens `result` twice). -/
-theorem applyRows_establishes (h : IsEquiv iriEqv) (rows : List (String × String)) :
+theorem applyRows_establishes (D : Str → Bool) (h : IsEquivOn iriEqv D) (rows : List (String × String)) :
     ∀ (fs fs' : Fields) (done : List (String × String)),
     (∀ r ∈ done, RowFix fs r) → (∀ x ∈ done, ∀ r' ∈ rows, x.1 ≠ r'.1 ∨ x = r') →
     rows.Pairwise (fun a b => a.1 ≠ b.1 ∨ a = b) →
-    (∀ r ∈ rows, r ∉ done → ∀ v, fs.get? r.1 = some v → plainVal v = true) →
+    (∀ r ∈ rows, r ∉ done → ∀ v, fs.get? r.1 = some v → plainVal v = true ∧ domVal D v = true) →
     applyRows fs rows = .ok fs' → ∀ r ∈ done ++ rows, RowFix fs' r := by
   induction rows with
   | nil =>
@@ -467,7 +524,7 @@ theorem applyRows_establishes (h : IsEquiv iriEqv) (rows : List (String × Strin
             · exact rowFix_congr fs fs1 x (applyRow_frame fs fs1 r x.1 (hne x hx) h1) (hd x hx)
             · have : x = r := by simpa using hx
               subst this
-              exact applyRow_establishes h fs fs1 x (hp x List.mem_cons_self hmem) h1)
+              exact applyRow_establishes D h fs fs1 x (hp x List.mem_cons_self hmem) h1)
           (by
             intro x hx r' hr'
             rcases List.mem_append.mp hx with hx | hx
@@ -510,12 +567,12 @@ theorem applyRows_fixed (rows : List (String × String)) :
 /-- **Flattening the properties of a value twice equals flattening them once**: for any table of rows
 whose positions are distinct (or visited again by the same function), any fields, if the function answers `fs'`, then run on `fs'` it never panics,
 and any answer it gives holds in every property exactly what `fs'` holds. -/
-theorem C16_idem_rows (h : IsEquiv iriEqv) (rows : List (String × String))
+theorem C16_idem_rows (D : Str → Bool) (h : IsEquivOn iriEqv D) (rows : List (String × String))
     (hpw : rows.Pairwise (fun a b => a.1 ≠ b.1 ∨ a = b)) (fs fs' : Fields)
-    (hp : ∀ r ∈ rows, ∀ v, fs.get? r.1 = some v → plainVal v = true)
+    (hp : ∀ r ∈ rows, ∀ v, fs.get? r.1 = some v → plainVal v = true ∧ domVal D v = true)
     (ha : applyRows fs rows = .ok fs') :
     applyRows fs' rows ≠ .panic ∧ ∀ fs'', applyRows fs' rows = .ok fs'' → ∀ m, fs''.get? m = fs'.get? m := by
-  have hfix := applyRows_establishes h rows fs fs' [] (by simp) (by simp) hpw (fun r hr _ => hp r hr) ha
+  have hfix := applyRows_establishes D h rows fs fs' [] (by simp) (by simp) hpw (fun r hr _ => hp r hr) ha
   rcases applyRows_fixed rows fs' (fun r hr => hfix r (by simpa using hr)) with e | ⟨fs2, e, hs⟩
   · rw [e]; exact ⟨by simp, by intro _ hc; cases hc⟩
   · rw [e]; exact ⟨by simp, by intro fs'' hc; cases hc; exact hs⟩
@@ -541,15 +598,16 @@ theorem C16_table_distinct :
   decide
 
 /-- C16's "flattening twice equals flattening once" for the code's own four functions -/
-theorem C16_idem_props (h : IsEquiv iriEqv) (fn : String)
+theorem C16_idem_props (fn : String)
     (hfn : fn ∈ ["FlattenObjectProperties", "FlattenActorProperties", "FlattenIntransitiveActivityProperties",
       "FlattenActivityProperties"]) (fs fs' : Fields)
-    (hp : ∀ r ∈ rowsOf flattenRows 4 fn, ∀ v, fs.get? r.1 = some v → plainVal v = true)
+    (hp : ∀ r ∈ rowsOf flattenRows 4 fn, ∀ v, fs.get? r.1 = some v →
+      plainVal v = true ∧ domVal IRI.inDomain v = true)
     (ha : flattenProps flattenRows fn fs = .ok fs') :
     flattenProps flattenRows fn fs' ≠ .panic ∧
     ∀ fs'', flattenProps flattenRows fn fs' = .ok fs'' → ∀ m, fs''.get? m = fs'.get? m := by
   have hd := List.all_eq_true.mp C16_table_distinct fn hfn
-  exact C16_idem_rows h _ (distinctNames_pairwise _ hd) fs fs' hp ha
+  exact C16_idem_rows IRI.inDomain iriEqv_equiv_on _ (distinctNames_pairwise _ hd) fs fs' hp ha
 
 /-! non-vacuity of `C16_idem_props`: an activity whose actor is embedded, whose attributedTo is a list of
 two embedded objects and whose `to` names one addressee twice has an answer, meets the side condition,
@@ -565,7 +623,7 @@ private def resOk : Res Fields → Option Fields
   | _ => none
 example : ((rowsOf flattenRows 4 "FlattenActivityProperties").all (fun r =>
     match sampleAct.get? r.1 with
-    | some v => plainVal v
+    | some v => plainVal v && domVal IRI.inDomain v
     | none => true)) = true := by decide +kernel
 example : ((resOk (flattenProps flattenRows "FlattenActivityProperties" sampleAct)).bind
     (fun fs' => (resOk (flattenProps flattenRows "FlattenActivityProperties" fs')).map (fun fs'' =>
